@@ -121,6 +121,11 @@ package lib
 //@   ensures @C19: regManager.RegConfig.enableCovertAllowlist == old(conf.enableCovertAllowlist)
 //@   ensures @C19: regManager.RegConfig.covertBlocklistDomains == old(conf.covertBlocklistDomains)
 //@   ensures @C19: regManager.RegConfig.phantomBlocklist == old(conf.phantomBlocklist)
+// the GeoIP database is a part like the others: a database that failed to load (the branch that logs it as an error)
+// leaves the previous one in force, and the manager is never left without a database (every lookup dereferences it)
+//@   atcall Errorf#2 before: snap geoLoadFailed := true
+//@   ensures @C19: defined(geoLoadFailed) ==> regManager.GeoIP == old(regManager.GeoIP)
+//@   ensures @C19: old(regManager.GeoIP) != nil ==> regManager.GeoIP != nil
 
 // ---------------- C05: the proxy relays byte streams faithfully and tears both sides down ----------------
 
